@@ -111,6 +111,20 @@ func (h *chunkHeartbeat) Marshal() ([]byte, error) {
 	return h.chunkHeader.marshal()
 }
 
+// marshal implements the chunk interface. Without it the interface method
+// resolved to the embedded chunkHeader.marshal and the Heartbeat Info parameter
+// was never put on the wire.
+func (h *chunkHeartbeat) marshal() ([]byte, error) {
+	if len(h.params) == 0 {
+		// empty HEARTBEAT (accepted by unmarshal): header only.
+		h.chunkHeader.typ = ctHeartbeat
+
+		return h.chunkHeader.marshal()
+	}
+
+	return h.Marshal()
+}
+
 func (h *chunkHeartbeat) check() (abort bool, err error) {
 	return false, nil
 }
